@@ -112,6 +112,17 @@ def classify(unit, g, res):
                 clause_hit = True
         for s in ours:
             o = g.origin[s["line_start"] - 1]
+            if o.get("kind") == "hint":
+                # a spliced proof hint failed: labelled hints carry a property step, unlabelled ones are undecided
+                r = unit.fn_of_line(s["line_start"])
+                if r:
+                    fn = r
+                if o.get("label") and not label:
+                    label = o["label"]; kind = "hint"
+                clause_hit = True
+                site = " ".join(" ".join(t["text"] for t in s.get("text", [])).split())[:200]
+        for s in ours:
+            o = g.origin[s["line_start"] - 1]
             if o.get("kind") in ("src",) or (o.get("kind") in ("lemma", "prelude") and not label):
                 r = unit.fn_of_line(s["line_start"])
                 if r and (fn is None or o.get("kind") == "src"):
